@@ -27,6 +27,10 @@ import (
 func transformVolumeMount(data any, p tree.Path, ignoreParseError bool) (any, error) {
 	switch v := data.(type) {
 	case map[string]any:
+		// as for the short syntax: the target is the key volumes are de-duplicated by
+		if target, ok := v["target"].(string); ok {
+			v["target"] = cleanTarget(target)
+		}
 		return v, nil
 	case string:
 		volume, err := format.ParseVolume(v) // TODO(ndeloof) ParseVolume should not rely on types and return map[string]
